@@ -13,7 +13,7 @@ import time
 
 from .emit import VERIF, repo_path
 
-WORK = os.path.join(VERIF, "work")
+WORK = os.environ.get("VERIF_WORK") or os.path.join(VERIF, "work")
 
 
 def base_env(extra=None) -> dict:
